@@ -19,6 +19,7 @@ type cvGen struct {
 	dynSrc  bool // source types may contain placeholders
 	concStr bool // strings are concrete (needed when they meet number parsing)
 	shortStr bool // strings are one symbolic byte
+	canon    bool // one canonical value per type: collections of one member, fixed leaves except bools
 }
 
 // ---------- types ----------
@@ -284,6 +285,9 @@ func (g *cvGen) target(tag string, t cty.Type) cty.Type {
 type cvPair struct{ c, w cty.Value }
 
 func (g *cvGen) leafString(tag string) cty.Value {
+	if g.canon {
+		return cty.StringVal("1")
+	}
 	if g.concStr {
 		return cty.StringVal([]string{"1", "a", "true"}[vChoice(tag+"-s", 3)])
 	}
@@ -302,6 +306,9 @@ func (g *cvGen) known(tag string, t cty.Type) cvPair {
 		v := cty.BoolVal(vBool(tag))
 		return cvPair{v, v}
 	case t == cty.Number:
+		if g.canon {
+			return cvPair{cty.NumberIntVal(1), cty.NumberIntVal(1)}
+		}
 		v := []cty.Value{cty.NumberIntVal(0), cty.NumberIntVal(1), cty.NumberFloatVal(2.5)}[vChoice(tag+"-n", 3)]
 		return cvPair{v, v}
 	case t == cty.DynamicPseudoType:
@@ -310,7 +317,10 @@ func (g *cvGen) known(tag string, t cty.Type) cvPair {
 		return cvPair{v, v}
 	case t.IsListType() || t.IsSetType():
 		et := t.ElementType()
-		ln := vChoice(tag+"-len", g.width+1)
+		ln := 1
+		if !g.canon {
+			ln = vChoice(tag+"-len", g.width+1)
+		}
 		if et.HasDynamicTypes() {
 			ln = 0
 		}
@@ -331,7 +341,10 @@ func (g *cvGen) known(tag string, t cty.Type) cvPair {
 		return cvPair{cty.SetVal(cs), cty.SetVal(ws)}
 	case t.IsMapType():
 		et := t.ElementType()
-		ln := vChoice(tag+"-len", g.width+1)
+		ln := 1
+		if !g.canon {
+			ln = vChoice(tag+"-len", g.width+1)
+		}
 		if et.HasDynamicTypes() {
 			ln = 0
 		}
@@ -339,7 +352,7 @@ func (g *cvGen) known(tag string, t cty.Type) cvPair {
 			return cvPair{cty.MapValEmpty(et), cty.MapValEmpty(et)}
 		}
 		keys := []string{"a", "b"}
-		if vChoice(tag+"-keys", 2) == 1 {
+		if !g.canon && vChoice(tag+"-keys", 2) == 1 {
 			keys = []string{"c", "a"}
 		}
 		cs, ws := map[string]cty.Value{}, map[string]cty.Value{}
